@@ -1,29 +1,59 @@
-"""C18 — limit_df, limit_signal, split/drop_samples_df, flatten_dfs are lossless selections.  Model/Window.v."""
+"""C18 — limit_df, limit_signal, split/drop_samples_df, flatten_dfs are lossless selections.  Model/Window.v.
+
+Statement oracle (only what the property text demands):
+  limit_df      the returned rows are a selection of the input rows in table order; every cycle ENTIRELY inside
+                [start, stop] is among them and no cycle ENTIRELY outside (exact rational arithmetic on the float
+                limits; partially overlapping cycles are not constrained); every column of the input is still there
+                and every non-sample value of a returned row is the value it had (NaN = NaN, dtype not compared); the
+                six sample columns of all returned rows differ from the input by ONE offset: 0 without reset_indices;
+                with it an integer next to fs*start, and exactly fs*start when that is a sample index.
+  limit_signal  exactly the samples with start <= t < stop.
+  split / drop  a column is a sample column iff its name STARTS WITH 'sample_'; both parts keep the table order of the
+                columns and every value.
+  flatten_dfs   rows in table order (2-D lists row-major), every value kept, row k carries the label of its table in
+                the column `column_name`.
+  Which exception an invalid call raises, whether the caller's table is modified, the precise selection among
+  partially overlapping cycles and the rounding of an off-grid offset are NOT judged by the oracle; the model
+  comparison pins them (a difference there is reported as no-failing-input-found).
+"""
 import math
+from fractions import Fraction as Fr
 import numpy as np
-from harness import coqio, pipeline
+from harness import coqio, gen, pipeline
 from harness.core import exc_kind
 
 PROP = 'C18'
 PROPS_FILE = 'Props/C18.v'
-_HDR = ('From Coq Require Import List ZArith NArith Floats.PrimFloat. Import ListNotations.\n'
+_HDR = ('From Coq Require Import List ZArith NArith String Floats.PrimFloat. Import ListNotations.\n'
         'From ByC Require Import Base.Result Harness.Compare Model.Window.\nOpen Scope float_scope.')
 COQ_STREAMS = {
     'limit_df': (_HDR, 'bad_limit_df', ('limit_in', 'result (list ((Z * Z * Z * Z * Z * Z) * N))'), 300),
     'limit_signal': (_HDR, 'bad_limit_signal', ('list float * option float * option float', 'result (list N)'), 100),
     'flatten': (_HDR, 'bad_flatten', ('list (list N) * list N * bool * nat', 'result (list (N * N))'), 300),
+    'split': (_HDR, 'bad_split', ('list (string * N)', 'option (list N) * option (list N * list N)'), 300),
 }
-RULE = ('limit_df on synthetic tiled cycle tables of both centrings, fs in {1, 100, 250, 512}, start/stop in {None, exactly on a '
-        'cycle boundary, between boundaries, before/after everything, reversed}, reset_indices both; limit_signal on sample '
-        'grids with limits None / on-grid / off-grid; split_samples_df / drop_samples_df on tables with mixed columns; '
-        'flatten_dfs on 1-D and 2-D lists of tables (incl. empty tables) with matching and mismatching label counts. '
-        'non-trivial = a window that keeps some but not all rows / samples, or >= 2 tables flattened')
-ASSUMPTIONS = ['each row is a cycle (last side <= centre <= next side); rows are tiled and chronological in most cases, stacked or shuffled in the rest']
+RULE = ('limit_df on (a) synthetic tiled cycle tables of both centrings with int sample columns and int / float / NaN-bearing float / '
+        'bool / string / >2^53 int feature columns, rows chronological, stacked or shuffled, and (b) tables computed by compute_features '
+        '(pipeline.gen_case, both centrings, both burst methods); fs in {1, 30, 100, 250, 512} (a: also -1, -250, 0 = outside the domain, '
+        'model comparison only; and tables moved so that a limit falls on a sample b with (b/fs)*fs != b in binary64), start/stop in {None, exactly on a cycle boundary, between boundaries, before/after everything, reversed}, '
+        'reset_indices both; limit_signal on sample grids with limits None / on-grid / off-grid; split_samples_df / drop_samples_df on '
+        'tables whose column names start with, contain, or nearly spell "sample_" (n_sample_*, resample_*, samples_*, Sample_*, sample, '
+        'sample_) with int / float+NaN / bool / string columns, and on compute_features tables; flatten_dfs on 1-D and 2-D lists of tables '
+        '(incl. empty tables) with int or string labels given as list, nested list or ndarray, default and non-default column_name, '
+        'matching and mismatching label counts. '
+        'non-trivial = a window that keeps some but not all rows / samples, >= 2 tables flattened, or a split with both kinds of column')
+ASSUMPTIONS = ['each row is a cycle (last side < next side); rows are tiled and chronological in most cases, stacked or shuffled in the rest',
+               'fs > 0 for the statement oracle; calls with invalid limits may raise (any class) or return what the statement says',
+               'values are compared as values (NaN equal to NaN), never by dtype: an int column returned as float alters no value']
+TRUST = ['tables of stream (b) are produced by the current compute_features; only their windowing is judged here (their content is C01-C07)']
 
 
 def stream_of(c):
-    return {'limit_df': 'limit_df', 'limit_signal': 'limit_signal', 'flatten': 'flatten'}.get(c['kind'], 'none')
+    return {'limit_df': 'limit_df', 'limit_signal': 'limit_signal', 'flatten': 'flatten', 'split': 'split'}.get(c['kind'], 'none')
 
+
+# ----------------------------------------------------------------------------------------------------------------
+# generation
 
 def _table(rng):
     n = rng.randint(0, 9)
@@ -40,9 +70,20 @@ def _table(rng):
     return rows
 
 
+_NAME_TEMPLATES = [('sample_c%d', 4), ('feat_c%d', 3), ('n_sample_c%d', 1), ('resample_c%d', 1), ('samples_c%d', 1),
+                   ('Sample_c%d', 1), ('SAMPLE_c%d', 1), ('sample', 1), ('sample_', 1), ('sample_sample_c%d', 1),
+                   ('c%d_sample_', 1), (' sample_c%d', 1), ('sampl_c%d', 1)]
+_DTYPES = ['int', 'float', 'nan', 'bool', 'str', 'big']
+
+
+def _pipe(rng, tier):
+    return pipeline.gen_case(rng, tier)
+
+
 def cases(rng, tier):
     out = []
-    n = 1500 if tier == 'quick' else 15000
+    quick = tier == 'quick'
+    n = 1500 if quick else 15000
     for _ in range(n):
         rows = _table(rng)
         order = rng.choice(['sorted', 'sorted', 'sorted', 'stacked', 'shuffled'])
@@ -65,9 +106,45 @@ def cases(rng, tier):
         a, b = lim(), lim()
         if a is not None and b is not None and a > b and rng.random() < 0.7:
             a, b = b, a
-        out.append({'kind': 'limit_df', 'center': rng.choice(['peak', 'trough']), 'rows': rows, 'fs': fs, 'start': a, 'stop': b,
-                    'reset': rng.random() < 0.6, 'index': rng.choice(['default', 'default', 'offset', 'reversed'])})
-    m = 400 if tier == 'quick' else 4000
+        if rows and rng.random() < 0.1:
+            # boundaries whose time stamp does not survive the round trip (b / fs) * fs in binary64 (e.g. 29 at 100 Hz
+            # gives 28.999999999999996): move the table so that one of its boundaries is such a sample and put a
+            # limit exactly on it
+            fs = rng.choice([100.0, 50.0, 200.0, 30.0, 7.0, 300.0])
+            inexact = [v for v in range(2, 700) if (v / fs) * fs != v]
+            t, bnd = rng.choice(inexact), rng.choice(bounds)
+            delta = t - bnd
+            if min(min(r) for r in rows) + delta >= 0:
+                rows = [[v + delta for v in r] for r in rows]
+                bounds = [v + delta for v in bounds]
+                if rng.random() < 0.6:
+                    a = t / fs
+                    if b is not None and b < a:
+                        b = None
+                else:
+                    b = t / fs
+                    if a is not None and a > b:
+                        a = None
+        c = {'kind': 'limit_df', 'center': rng.choice(['peak', 'trough']), 'rows': rows, 'fs': fs, 'start': a, 'stop': b,
+             'reset': rng.random() < 0.6, 'index': rng.choice(['default', 'default', 'offset', 'reversed']),
+             'label_col': rng.random() < 0.3}
+        if rng.random() < 0.03:         # a sampling rate outside the documented range: not judged by the oracle
+            c['fs'] = rng.choice([-1.0, -250.0, 0.0])
+        out.append(c)
+    # windows on tables computed by compute_features; the limits are resolved on the computed table (run_impl)
+    for _ in range(150 if quick else 1200):
+        def spec():
+            r = rng.random()
+            if r < 0.2:
+                return ['none']
+            if r < 0.65:
+                return ['bound', rng.random(), 0.0]
+            if r < 0.85:
+                return ['bound', rng.random(), rng.choice([-0.5, 0.5, 0.25])]
+            return ['far', rng.choice(['zero', 'beyond', 'early'])]
+        out.append({'kind': 'limit_df', 'pipe': _pipe(rng, tier), 'a_spec': spec(), 'b_spec': spec(), 'swap': rng.random() < 0.7,
+                    'fs_mode': rng.choice(['own', 'own', 'own', '512']), 'reset': rng.random() < 0.6})
+    m = 400 if quick else 4000
     for _ in range(m):
         fs = rng.choice([1.0, 100.0, 250.0, 512.0, 1000.0, 30.0])
         nn = rng.randint(1, 60)
@@ -84,7 +161,7 @@ def cases(rng, tier):
         if a is not None and a < 0:
             a = 0.0
         out.append({'kind': 'limit_signal', 'fs': fs, 'n': nn, 'start': a, 'stop': b})
-    k = 400 if tier == 'quick' else 4000
+    k = 400 if quick else 4000
     for _ in range(k):
         two_d = rng.random() < 0.5
         n0, n1 = rng.randint(1, 3), (rng.randint(1, 3) if two_d else 1)
@@ -93,11 +170,39 @@ def cases(rng, tier):
             sizes[0] = 1
         nlab = n0 * n1 if rng.random() < 0.85 else n0 * n1 + rng.choice([-1, 1])
         out.append({'kind': 'flatten', 'two_d': two_d, 'n0': n0, 'n1': n1, 'sizes': sizes,
-                    'labels': [rng.randint(0, 50) for _ in range(max(0, nlab))]})
-    for _ in range(100 if tier == 'quick' else 1000):
+                    'labels': [rng.randint(0, 50) for _ in range(max(0, nlab))],
+                    'lab_as': rng.choice(['list', 'list', 'array', 'str_list', 'str_list', 'str_array', 'flat_list']),
+                    'column_name': rng.choice(['Label', 'Label', 'Label', 'group', 'sample_epoch'])})
+    for _ in range(150 if quick else 1500):
         ncol = rng.randint(1, 8)
-        out.append({'kind': 'split', 'cols': [rng.random() < 0.5 for _ in range(ncol)], 'nrow': rng.randint(0, 4)})
+        tmpl = [t for t, w in _NAME_TEMPLATES for _ in range(w)]
+        names = []
+        for i in range(ncol):
+            t = rng.choice(tmpl)
+            nm = (t % i) if '%d' in t else t
+            if nm not in names:
+                names.append(nm)
+        out.append({'kind': 'split', 'names': names, 'dtypes': [rng.choice(_DTYPES) for _ in names], 'nrow': rng.randint(0, 4)})
+    for _ in range(30 if quick else 300):
+        out.append({'kind': 'split', 'pipe': _pipe(rng, tier), 'return_samples': rng.random() < 0.85})
     return out
+
+
+# ----------------------------------------------------------------------------------------------------------------
+# running the implementation
+
+def _col(dtype, n, i):
+    if dtype == 'int':
+        return np.arange(n, dtype=int) * 3 + i
+    if dtype == 'float':
+        return np.arange(n, dtype=float) * 0.25 + i
+    if dtype == 'nan':
+        return np.array([float('nan') if (j + i) % 2 == 0 else j + 0.5 for j in range(n)], dtype=float)
+    if dtype == 'bool':
+        return np.array([(j + i) % 2 == 0 for j in range(n)], dtype=bool)
+    if dtype == 'str':
+        return np.array(['r%d_%d' % (j, i) for j in range(n)], dtype=object)
+    return np.array([2 ** 53 + 1 + 2 * j + i for j in range(n)], dtype=np.int64)
 
 
 def _df(c):
@@ -110,6 +215,10 @@ def _df(c):
     d['volt_amp'] = np.arange(n, dtype=float) * 0.25 + 1
     d['is_burst'] = np.array([i % 2 == 0 for i in range(n)], dtype=bool)
     d['rowid'] = np.arange(n, dtype=int)
+    d['amp_consistency'] = _col('nan', n, 1)
+    d['recording_id'] = _col('big', n, 0)
+    if c.get('label_col'):
+        d['Label'] = _col('str', n, 7)
     df = pd.DataFrame(d)
     if c.get('index') == 'offset':
         df.index = np.arange(n) + 11
@@ -118,24 +227,197 @@ def _df(c):
     return df
 
 
-def run_impl(c):
+def _pipe_table(pc):
+    sig = pipeline.sig_of(pc) if hasattr(pipeline, 'sig_of') else gen.unhexlist(pc['sig'])
+    return pipeline.call_compute_features(sig, pc, return_samples=True)
+
+
+def _py(v):
+    return v.item() if hasattr(v, 'item') else v
+
+
+def _same(a, b):
+    """Same value: NaN equals NaN; numbers by value whatever their type; everything else by ==."""
+    a, b = _py(a), _py(b)
+    if isinstance(a, float) and isinstance(b, float) and math.isnan(a) and math.isnan(b):
+        return True
+    if isinstance(a, (bool, int, float)) and isinstance(b, (bool, int, float)):
+        if isinstance(a, float) or isinstance(b, float):
+            # an int beyond 2^53 returned as float has lost its value unless the conversion is exact
+            try:
+                return Fr(a) == Fr(b)
+            except (ValueError, OverflowError):
+                return False
+        return int(a) == int(b)
+    try:
+        return bool(a == b)
+    except Exception:
+        return False
+
+
+def _frame_diff(res, ref, cols, ref_pos=None):
+    """First column of `cols` whose values in `res` (row k) differ from `ref` (row ref_pos[k]), or None."""
+    n = len(res)
+    for col in cols:
+        if col not in res.columns:
+            return 'column %r missing' % (col,)
+        a, b = res[col].tolist() if hasattr(res[col], 'tolist') else list(res[col]), ref[col].tolist()
+        if len(a) != n:
+            return 'column %r has %d values for %d rows' % (col, len(a), n)
+        for k in range(n):
+            j = k if ref_pos is None else ref_pos[k]
+            if not _same(a[k], b[j]):
+                return 'column %r: %r became %r' % (col, b[j], a[k])
+    return None
+
+
+def _resolve(spec, bounds, fs):
+    if spec[0] == 'none':
+        return None
+    if spec[0] == 'bound':
+        b = bounds[min(len(bounds) - 1, int(spec[1] * len(bounds)))]
+        return max(0.0, (b + spec[2]) / fs)
+    return {'zero': 0.0, 'beyond': (bounds[-1] + 50) / fs, 'early': bounds[0] / fs / 2}[spec[1]]
+
+
+def _run_limit_df(c):
+    from bycycle.utils.dataframes import limit_df
+    if 'pipe' in c:
+        pc = c['pipe']
+        try:
+            df = _pipe_table(pc)
+        except Exception as e:
+            return {'skip': 'compute_features raised %s' % exc_kind(e)}
+        center = pc['center']
+        sc = pipeline.sample_cols(center)
+        if any(col not in df.columns for col in sc) or 'rowid' in df.columns:
+            return {'skip': 'computed table lacks sample columns'}
+        df = df.copy()
+        df['rowid'] = np.arange(len(df), dtype=int)
+        fs = 512.0 if c['fs_mode'] == '512' else float(pc['fs'])
+        in_rows = [[int(df[col].iloc[i]) for col in sc] for i in range(len(df))]
+        bounds = sorted(set([r[1] for r in in_rows] + [r[2] for r in in_rows])) or [10]
+        a, b = _resolve(c['a_spec'], bounds, fs), _resolve(c['b_spec'], bounds, fs)
+        if a is not None and b is not None and a > b and c['swap']:
+            a, b = b, a
+    else:
+        df, center, fs, a, b = _df(c), c['center'], c['fs'], c['start'], c['stop']
+        sc = pipeline.sample_cols(center)
+        in_rows = [list(r) for r in c['rows']]
+    out = {'in_rows': in_rows, 'fs': fs, 'start': a, 'stop': b, 'center': center}
+    before = df.copy(deep=True)
+    try:
+        r = limit_df(df, fs, start=a, stop=b, reset_indices=c['reset'])
+    except Exception as e:
+        out.update({'err': exc_kind(e), 'msg': str(e)[:160]})
+        return out
+    try:
+        ids = [int(x) for x in r['rowid'].tolist()]
+        out['rows'] = [{'s': [int(r[col].iloc[i]) for col in sc], 'id': ids[i]} for i in range(len(r))]
+    except Exception as e:
+        out['unreadable'] = 'returned table cannot be read: %s: %s' % (type(e).__name__, str(e)[:120])
+        return out
+    out['columns_missing'] = sorted(str(x) for x in before.columns if x not in r.columns)
+    feat = [col for col in before.columns if col not in sc and col in r.columns]
+    if all(0 <= i < len(before) for i in ids):
+        out['feature_diff'] = _frame_diff(r, before, feat, ref_pos=ids)
+    else:
+        out['feature_diff'] = None           # reported as a selection failure by the oracle
+    out['input_unchanged'] = bool(before.equals(df))
+    return out
+
+
+def _run_split(c):
     import pandas as pd
+    from bycycle.utils.dataframes import split_samples_df, drop_samples_df
+    if 'pipe' in c:
+        pc = c['pipe']
+        try:
+            sig = pipeline.sig_of(pc) if hasattr(pipeline, 'sig_of') else gen.unhexlist(pc['sig'])
+            df = pipeline.call_compute_features(sig, pc, return_samples=c['return_samples'])
+        except Exception as e:
+            return {'skip': 'compute_features raised %s' % exc_kind(e)}
+    else:
+        df = pd.DataFrame({nm: _col(dt, c['nrow'], i) for i, (nm, dt) in enumerate(zip(c['names'], c['dtypes']))})
+    names = [str(x) for x in df.columns]
+    out = {'names': names, 'nrow': len(df)}
+    ref = df.copy(deep=True)
+    try:
+        d = drop_samples_df(df.copy(deep=True))
+        out['drop_cols'] = [str(x) for x in d.columns]
+        out['drop_diff'] = ('%d rows became %d' % (len(ref), len(d))) if len(d) != len(ref) else \
+            _frame_diff(d, ref, [x for x in d.columns if x in ref.columns])
+    except Exception as e:
+        out['drop_err'] = exc_kind(e)
+    try:
+        f, s = split_samples_df(df.copy(deep=True))
+        out['split_f'], out['split_s'] = [str(x) for x in f.columns], [str(x) for x in s.columns]
+        out['split_diff'] = ('%d rows became %d / %d' % (len(ref), len(f), len(s))) if (len(f) != len(ref) or len(s) != len(ref)) else \
+            (_frame_diff(f, ref, [x for x in f.columns if x in ref.columns]) or _frame_diff(s, ref, [x for x in s.columns if x in ref.columns]))
+    except Exception as e:
+        out['split_err'] = exc_kind(e)
+    return out
+
+
+def _lab(c, i):
+    v = c['labels'][i]
+    return ('L%d' % v) if c['lab_as'].startswith('str') else v
+
+
+def _run_flatten(c):
+    import pandas as pd
+    from bycycle.utils.dataframes import flatten_dfs
+    tabs = [pd.DataFrame({'rowid': np.arange(sz, dtype=int) + 100 * i, 'v': np.arange(sz, dtype=float),
+                          'w': _col('nan', sz, i), 'name': _col('str', sz, i), 'sample_x': _col('int', sz, i)})
+            for i, sz in enumerate(c['sizes'])]
+    refs = [t.copy(deep=True) for t in tabs]
+    nl = len(c['labels'])
+    flat = [_lab(c, i) for i in range(nl)]
+    as_ = c.get('lab_as', 'list')
+    n0, n1 = c['n0'], c['n1']
+    if c['two_d']:
+        dfs = [[tabs[i * n1 + j] for j in range(n1)] for i in range(n0)]
+        nested = nl == n0 * n1 and as_ != 'flat_list'
+        labels = [flat[i * n1:(i + 1) * n1] for i in range(n0)] if nested else list(flat)
+    else:
+        dfs, labels = tabs, list(flat)
+    if as_.endswith('array'):
+        labels = np.array(labels)
+    cn = c.get('column_name', 'Label')
+    try:
+        r = flatten_dfs(dfs, labels) if cn == 'Label' else flatten_dfs(dfs, labels, column_name=cn)
+    except Exception as e:
+        return {'err': exc_kind(e), 'msg': str(e)[:160]}
+    out = {}
+    try:
+        ids = [int(x) for x in r['rowid'].tolist()]
+    except Exception as e:
+        return {'unreadable': 'returned table cannot be read: %s: %s' % (type(e).__name__, str(e)[:120])}
+    if cn not in r.columns:
+        out['no_label_column'] = True
+        out['pairs'] = [[i, -1] for i in ids]
+    else:
+        labs = []
+        for x in r[cn].tolist():
+            x = _py(x)
+            if isinstance(x, str):
+                labs.append(int(x[1:]) if x[:1] == 'L' and x[1:].isdigit() else -1)
+            else:
+                labs.append(int(x) if isinstance(x, (int, float)) and not isinstance(x, bool) and x == x and float(x).is_integer() else -1)
+        out['pairs'] = [[i, l] for i, l in zip(ids, labs)]
+    ref = pd.concat(refs) if refs else None
+    pos = {int(v): k for k, v in enumerate(ref['rowid'].tolist())}
+    if all(i in pos for i in ids):
+        out['value_diff'] = _frame_diff(r, ref, list(ref.columns), ref_pos=[pos[i] for i in ids])
+    else:
+        out['value_diff'] = 'rows that are in no input table'
+    return out
+
+
+def run_impl(c):
     k = c['kind']
     if k == 'limit_df':
-        from bycycle.utils.dataframes import limit_df
-        df = _df(c)
-        before = df.copy()
-        try:
-            r = limit_df(df, c['fs'], start=c['start'], stop=c['stop'], reset_indices=c['reset'])
-        except Exception as e:
-            return {'err': exc_kind(e), 'msg': str(e)[:160]}
-        sc = pipeline.sample_cols(c['center'])
-        rows = [{'s': [int(r[col].iloc[i]) for col in sc], 'id': int(r['rowid'].iloc[i])} for i in range(len(r))]
-        feats_ok = all(r['volt_amp'].iloc[i] == before['volt_amp'].iloc[int(r['rowid'].iloc[i])] and
-                       r['period'].iloc[i] == before['period'].iloc[int(r['rowid'].iloc[i])] and
-                       bool(r['is_burst'].iloc[i]) == bool(before['is_burst'].iloc[int(r['rowid'].iloc[i])]) for i in range(len(r)))
-        return {'rows': rows, 'features_unchanged': bool(feats_ok), 'input_unchanged': bool(before.equals(df)),
-                'columns_same': sorted(r.columns) == sorted(before.columns)}
+        return _run_limit_df(c)
     if k == 'limit_signal':
         from bycycle.utils.timeseries import limit_signal
         n, fs = c['n'], c['fs']
@@ -148,41 +430,14 @@ def run_impl(c):
         return {'kept': [int(x) for x in s], 'times_ok': bool(np.array_equal(t, times[[int(x) for x in s]])) if len(s) else len(t) == 0,
                 'times': [float(x).hex() for x in times]}
     if k == 'flatten':
-        from bycycle.utils.dataframes import flatten_dfs
-        tabs = [pd.DataFrame({'rowid': np.arange(sz, dtype=int) + 100 * i, 'v': np.arange(sz, dtype=float)}) for i, sz in enumerate(c['sizes'])]
-        if c['two_d']:
-            dfs = [[tabs[i * c['n1'] + j] for j in range(c['n1'])] for i in range(c['n0'])]
-            nl = len(c['labels'])
-            labels = [c['labels'][i * c['n1']:(i + 1) * c['n1']] for i in range(c['n0'])] if nl == c['n0'] * c['n1'] else list(c['labels'])
-        else:
-            dfs, labels = tabs, list(c['labels'])
-        try:
-            r = flatten_dfs(dfs, labels)
-        except Exception as e:
-            return {'err': exc_kind(e), 'msg': str(e)[:160]}
-        return {'pairs': [[int(r['rowid'].iloc[i]), int(r['Label'].iloc[i])] for i in range(len(r))],
-                'v_ok': bool(all(float(r['v'].iloc[i]) == float(int(r['rowid'].iloc[i]) % 100) for i in range(len(r))))}
+        return _run_flatten(c)
     if k == 'split':
-        from bycycle.utils.dataframes import split_samples_df, drop_samples_df
-        names = [('sample_c%d' % i if s else 'feat_c%d' % i) for i, s in enumerate(c['cols'])]
-        df = pd.DataFrame({nm: np.arange(c['nrow'], dtype=float) + i for i, nm in enumerate(names)})
-        out = {}
-        try:
-            d = drop_samples_df(df.copy())
-            out['drop_cols'] = list(d.columns)
-            out['drop_ok'] = bool(all(np.array_equal(d[col], df[col]) for col in d.columns))
-        except Exception as e:
-            out['drop_err'] = exc_kind(e)
-        try:
-            f, s = split_samples_df(df.copy())
-            out['split_f'], out['split_s'] = list(f.columns), list(s.columns)
-            out['split_ok'] = bool(all(np.array_equal(f[col], df[col]) for col in f.columns) and all(np.array_equal(s[col], df[col]) for col in s.columns))
-        except Exception as e:
-            out['split_err'] = exc_kind(e)
-        out['names'] = names
-        return out
+        return _run_split(c)
     return {'harness_error': 'unknown'}
 
+
+# ----------------------------------------------------------------------------------------------------------------
+# statement oracle
 
 def _limits_valid(a, b):
     if a is not None and a < 0:
@@ -194,31 +449,63 @@ def _limits_valid(a, b):
     return True
 
 
+def _judge_limit_df(c, o):
+    in_rows, fs, start, stop = o['in_rows'], o['fs'], o['start'], o['stop']
+    if not fs > 0:
+        return None                      # times are undefined: outside the property (the model pins the behaviour)
+    if 'err' in o:
+        if not _limits_valid(start, stop):
+            return None                  # an invalid window may be refused, with whatever exception
+        return 'raised %s (%s) for valid limits start=%s stop=%s on a %s-centred table' % (o['err'], o.get('msg'), start, stop, o['center'])
+    if 'unreadable' in o:
+        return o['unreadable']
+    lo = Fr(0) if start is None else Fr(start) * Fr(fs)
+    hi = None if stop is None else Fr(stop) * Fr(fs)
+    n = len(in_rows)
+    ids = [r['id'] for r in o['rows']]
+    if any(not (0 <= i < n) for i in ids) or any(b <= a for a, b in zip(ids, ids[1:])):
+        return 'returned rows are not a selection of the input rows in table order: row ids %s' % ids[:12]
+    got = set(ids)
+    inside = [i for i, r in enumerate(in_rows) if r[1] >= lo and (hi is None or r[2] <= hi)]
+    lost = [i for i in inside if i not in got]
+    if lost:
+        return 'selection: cycle(s) %s lying entirely inside [start, stop] were dropped (start=%s stop=%s fs=%s, samples %s)' % (
+            lost[:5], start, stop, fs, [in_rows[i][1:3] for i in lost[:5]])
+    # "entirely outside" is judged with a margin of 1e-9 samples (relative): a cycle that ends within float accuracy
+    # of the window start (start = 2.2 is the double just above 66/30) touches the window for all practical purposes
+    eps_lo = max(abs(lo), 1) / 10 ** 9
+    eps_hi = 0 if hi is None else max(abs(hi), 1) / 10 ** 9
+    extra = [i for i in ids if in_rows[i][2] < lo - eps_lo or (hi is not None and in_rows[i][1] > hi + eps_hi)]
+    if extra:
+        return 'selection: cycle(s) %s lying entirely outside [start, stop] were kept (start=%s stop=%s fs=%s, samples %s)' % (
+            extra[:5], start, stop, fs, [in_rows[i][1:3] for i in extra[:5]])
+    if o['columns_missing']:
+        return 'columns lost: %s' % o['columns_missing']
+    if o['feature_diff']:
+        return 'feature values changed: %s' % o['feature_diff']
+    offs = sorted(set(in_rows[r['id']][k] - r['s'][k] for r in o['rows'] for k in range(6)))
+    if len(offs) > 1:
+        return 'shift: sample columns are not shifted by one common offset (offsets %s)' % offs[:6]
+    if offs:
+        if not c['reset'] and offs[0] != 0:
+            return 'shift: sample columns shifted by %d although reset_indices is False' % offs[0]
+        if c['reset']:
+            x = lo                            # fs * start, exactly
+            if abs(Fr(offs[0]) - x) >= 1 or (abs(x - round(x)) < Fr(1, 10 ** 6) and offs[0] != round(x)):
+                return 'shift: offset %d is not the sample index of the window start fs*start = %s' % (offs[0], float(x))
+    return None
+
+
 def oracle(c, o):
+    if 'skip' in o:
+        return None
     k = c['kind']
     if k == 'limit_df':
-        if not _limits_valid(c['start'], c['stop']):
-            return None if o.get('err') == 'Value' else 'invalid limits not rejected with ValueError: %s' % o
-        if 'err' in o:
-            return 'raised %s (%s) for valid limits start=%s stop=%s on a %s-centred table' % (o['err'], o.get('msg'), c['start'], c['stop'], c['center'])
-        a = 0 if c['start'] is None else c['start']
-        fs = c['fs']
-        want = []
-        for i, r in enumerate(c['rows']):
-            if r[1] >= a * fs and (c['stop'] is None or r[2] <= c['stop'] * fs):
-                sh = int(round(fs * a)) if c['reset'] else 0
-                want.append({'s': [v - sh for v in r], 'id': i})
-        if o['rows'] != want:
-            return 'selection/shift differs: got %s want %s' % (o['rows'][:4], want[:4])
-        if not o['features_unchanged']:
-            return 'feature values changed'
-        if not o['input_unchanged']:
-            return 'input table modified'
-        return None
+        return _judge_limit_df(c, o)
     if k == 'limit_signal':
-        if not _limits_valid(c['start'], c['stop']):
-            return None if o.get('err') == 'Value' else 'invalid limits not rejected with ValueError: %s' % {q: o[q] for q in o if q != 'times'}
         if 'err' in o:
+            if not _limits_valid(c['start'], c['stop']):
+                return None
             return 'raised %s (%s) for valid limits start=%s stop=%s' % (o['err'], o.get('msg'), c['start'], c['stop'])
         times = [float.fromhex(h) for h in o['times']]
         want = [i for i, t in enumerate(times) if (c['start'] is None or t >= c['start']) and (c['stop'] is None or t < c['stop'])]
@@ -228,58 +515,92 @@ def oracle(c, o):
     if k == 'flatten':
         n = c['n0'] * c['n1']
         if len(c['labels']) != n:
-            return None if o.get('err') == 'Value' else 'label/table count mismatch not rejected with ValueError: %s' % o
+            return None                  # as many labels as tables is the documented domain; the model pins ValueError
         if 'err' in o:
             return 'raised %s (%s)' % (o['err'], o.get('msg'))
+        if 'unreadable' in o:
+            return o['unreadable']
+        if o.get('no_label_column'):
+            return 'no column %r carrying the labels' % c.get('column_name', 'Label')
         want = [[100 * i + r, c['labels'][i]] for i in range(n) for r in range(c['sizes'][i])]
         if o['pairs'] != want:
             return 'flattened (row, label) pairs %s, expected %s' % (o['pairs'][:6], want[:6])
-        if not o['v_ok']:
-            return 'values altered by flattening'
+        if o['value_diff']:
+            return 'values altered by flattening: %s' % o['value_diff']
         return None
     if k == 'split':
         if 'drop_err' in o:
             return 'drop_samples_df raised %s' % o['drop_err']
         feat = [nm for nm in o['names'] if not nm.startswith('sample_')]
         samp = [nm for nm in o['names'] if nm.startswith('sample_')]
-        if o['drop_cols'] != feat or not o['drop_ok']:
+        if o['drop_cols'] != feat:
             return 'drop_samples_df kept %s expected %s' % (o['drop_cols'], feat)
+        if o['drop_diff']:
+            return 'drop_samples_df altered a value: %s' % o['drop_diff']
         if not samp:
             return None   # split with no sample column: pandas refuses to concat nothing; outside the property
         if 'split_err' in o:
             return 'split_samples_df raised %s' % o['split_err']
-        if o['split_f'] != feat or o['split_s'] != samp or not o['split_ok']:
-            return 'split_samples_df gave %s / %s' % (o['split_f'], o['split_s'])
+        if o['split_f'] != feat or o['split_s'] != samp:
+            return 'split_samples_df gave %s / %s, expected %s / %s' % (o['split_f'], o['split_s'], feat, samp)
+        if o['split_diff']:
+            return 'split_samples_df altered a value: %s' % o['split_diff']
         return None
 
 
 def nontrivial(c, o):
+    if 'skip' in o:
+        return False
     k = c['kind']
     if k == 'limit_df':
-        return 'rows' in o and 0 < len(o['rows']) < len(c['rows'])
+        return 'rows' in o and 0 < len(o['rows']) < len(o['in_rows'])
     if k == 'limit_signal':
         return 'kept' in o and 0 < len(o['kept']) < c['n']
     if k == 'flatten':
         return 'pairs' in o and c['n0'] * c['n1'] >= 2
+    if k == 'split':
+        ns = sum(1 for nm in o.get('names', []) if nm.startswith('sample_'))
+        return 0 < ns < len(o.get('names', []))
     return True
 
 
 def kind_of(c, o):
-    return c['kind'] + ('/' + c['center'] if 'center' in c else '') + ('/err' if 'err' in o else '')
+    k = c['kind'] + ('/computed' if 'pipe' in c else '')
+    if 'skip' in o:
+        return k + '/skip: ' + o['skip']
+    if c['kind'] == 'limit_df':
+        k += '/' + o.get('center', '?')
+        if not o.get('fs', 1) > 0:
+            k += '/fs<=0'
+        if o.get('input_unchanged') is False:
+            k += '/input-modified'       # not a clause of C18; recorded only
+    return k + ('/err' if 'err' in o else '')
 
+
+# ----------------------------------------------------------------------------------------------------------------
+# model comparison
 
 def _optf(x):
     return 'None' if x is None else '(Some %s)' % coqio.fl(x)
 
 
+def _cstr(s):
+    return '"%s"%%string' % s.replace('"', '""')
+
+
 def coq_case(c, o):
+    if 'skip' in o or 'unreadable' in o:
+        return None
     k = c['kind']
     res_err = '(Err %s)' % pipeline.ERRMAP.get(o.get('err'), 'EOther')
     if k == 'limit_df':
-        rows = coqio.lst(['((%s), %d%%N)' % (', '.join(coqio.Z(v) + '%Z' for v in r), i) for i, r in enumerate(c['rows'])]) if c['rows'] else 'nil'
-        inp = '(%s, %s, %s, %s, %s)' % (rows, coqio.fl(c['fs']), _optf(c['start']), _optf(c['stop']), coqio.B(c['reset']))
+        rows_in = o['in_rows']
+        rows = coqio.lst(['((%s), %d%%N)' % (', '.join(coqio.Z(v) + '%Z' for v in r), i) for i, r in enumerate(rows_in)]) if rows_in else 'nil'
+        inp = '(%s, %s, %s, %s, %s)' % (rows, coqio.fl(o['fs']), _optf(o['start']), _optf(o['stop']), coqio.B(c['reset']))
         if 'err' in o:
             return inp, res_err
+        if any(r['id'] < 0 for r in o['rows']):
+            return None
         return inp, '(Ok %s)' % (coqio.lst(['((%s), %d%%N)' % (', '.join(coqio.Z(v) + '%Z' for v in r['s']), r['id']) for r in o['rows']]) if o['rows'] else 'nil')
     if k == 'limit_signal':
         ts = [float.fromhex(h) for h in o['times']]
@@ -293,5 +614,25 @@ def coq_case(c, o):
         inp = '(%s, %s, %s, %d%%nat)' % (tabs, labs, coqio.B(c['two_d']), c['n1'])
         if 'err' in o:
             return inp, res_err
+        if any(a < 0 or b < 0 for a, b in o['pairs']):
+            return None                  # unreadable label / row: judged by the oracle
         return inp, '(Ok %s)' % (coqio.lst(['(%d%%N, %d%%N)' % (a, b) for a, b in o['pairs']]) if o['pairs'] else 'nil')
+    if k == 'split':
+        names = o['names']
+        if any(not all(32 <= ord(ch) < 127 for ch in nm) for nm in names):
+            return None
+        idx = {nm: i for i, nm in enumerate(names)}
+        if len(idx) != len(names):
+            return None
+
+        def ids(cols):
+            if any(x not in idx for x in cols):
+                return None
+            return coqio.lst(['%d%%N' % idx[x] for x in cols]) if cols else 'nil'
+        inp = coqio.lst(['(%s, %d%%N)' % (_cstr(nm), i) for i, nm in enumerate(names)]) if names else 'nil'
+        dr = ids(o['drop_cols']) if 'drop_cols' in o else None
+        sf = ids(o['split_f']) if 'split_f' in o else None
+        ss = ids(o['split_s']) if 'split_s' in o else None
+        return inp, '(%s, %s)' % ('None' if dr is None else '(Some %s)' % dr,
+                                  'None' if sf is None or ss is None else '(Some (%s, %s))' % (sf, ss))
     return None
